@@ -233,6 +233,10 @@ impl Ctx {
         }
     }
     pub fn start_watchdog(&self, secs: u64) {
+        if cfg!(miri) {
+            // interpretation is ~10^4 times slower; the orchestrator's own timeout applies
+            return;
+        }
         let beat = self.beat.clone();
         let out = self.out.clone();
         std::thread::spawn(move || {
